@@ -158,7 +158,7 @@ func (e *Encoder) writeValue(val reflect.Value, tagType byte) error {
 				case reflect.Uint, reflect.Uint8, reflect.Uint16, reflect.Uint32, reflect.Uint64:
 					v = int64(elem.Uint())
 				default:
-					return errors.New("value typed " + elem.Type().String() + "is not allowed in Tag 0x" + strconv.FormatUint(uint64(tagType), 16))
+					return errors.New("value of kind " + elem.Kind().String() + " is not allowed in Tag 0x" + strconv.FormatUint(uint64(tagType), 16))
 				}
 				if tagType == TagIntArray {
 					err = writeInt32(e.w, int32(v))
